@@ -382,6 +382,7 @@ func runC06(c *Ctx) {
 	}
 	c06Validators(c)
 	c06Sequential(c)
+	c06Config(c)
 }
 
 // c06Escape follows a value forward through arithmetic, conversions, local variables and time arithmetic; it returns
